@@ -17,8 +17,19 @@ def _obj(ctx, kind, p, d):
     return vec(ctx, d)
 
 
+EXTRA_WITNESSES = {'quick': 8, 'thorough': 16}
+
+
+def _basis(fr_name, perm):
+    if fr_name.startswith('dir:'):
+        d = tuple(F(x) for x in fr_name[4:].split(','))
+        w = next(c for c in (R.cross(d, (F(0), F(0), F(1))), R.cross(d, (F(1), F(0), F(0)))) if any(c))
+        return R.vscale(F(1, 2), d), w, R.cross(d, w)
+    return B.frame_vectors(fr_name, perm)
+
+
 def fam_dir(ctx, ka, kb, fr_name, perm, template, form):
-    e1, e2, e3 = B.frame_vectors(fr_name, perm)
+    e1, e2, e3 = _basis(fr_name, perm)
     k = ctx.param('k')
     t = ctx.param('t')
     if template == 'kts':
@@ -131,6 +142,12 @@ def families(tier, seed):
                     for form in (('function', 'method') if fi == 0 and ka != 'Vector' else ('function',)):
                         fams.append(Family('%s-%s/%s/%s/%s' % (ka, kb, tp, tag, form), fam_dir, (ka, kb, fr_name, perm, tp, form),
                                            must_reach=('par=True', 'par=False', 'ort=True', 'ort=False')))
+    # explicit lattice directions: exactly parallel / perpendicular pairs on them are where float rounding of the cosine
+    # matters; the float replay of the path witnesses (8 lattice witnesses per path) looks at those
+    for dname in (['3,2,0', '1,1,1', '2,1,1', '0,2,3'] if tier == 'quick' else ['3,2,0', '1,1,1', '2,1,1', '0,2,3', '3,3,0', '1,2,3', '2,3,6', '-1,4,0']):
+        for ka, kb in KINDS:
+            fams.append(Family('%s-%s/kt/dir:%s/function' % (ka, kb, dname), fam_dir, (ka, kb, 'dir:' + dname, None, 'kt', 'function'),
+                               must_reach=('par=True', 'par=False', 'ort=True', 'ort=False')))
     # bit-precise binary64 obligation: a single query costs 1-3 minutes (bit-blasted sqrt/div), so thorough tier only;
     # in the quick tier float noise is only seen through the float replay of the path witnesses
     if tier == 'thorough':
